@@ -306,6 +306,13 @@ fn after_hook(e: &Event, val: usize, ok: bool) {
         if site.ends_with("Node::traverse#0") && !site.contains("pay_all") {
             n.saw_writer.insert(w, false);
         }
+        // a node that another newcomer holds for its check cannot be claimed either: the same
+        // cause of an allocation beyond the peak (a released node exists but is not available)
+        if let Kind::F(_, Field::InUse) = k {
+            if site.ends_with("Node::check_cooldown#0") && !ok && val == 3 {
+                n.saw_writer.insert(w, true);
+            }
+        }
         if let Kind::F(j, Field::Writers) = k {
             if site.ends_with("Node::check_cooldown#1") && val > 0 {
                 n.saw_writer.insert(w, true);
